@@ -36,14 +36,15 @@ theorem den_of_denN {t1 t2 : Tbl} (h1 : WF t1) (h2 : WF t2) (o1 : OrderOK t1)
   rw [e1, e3, e2]
 
 theorem siftEnv2 (ext : Nat → Nat) :
-    SiftEnv2 (ReorderInv ext) (fun m => ReorderInv ext m ∧ NoGarbage m) (HeldSame ext) := by
+    SiftEnv2 (ReorderInv ext) (fun m => ReorderInv ext m ∧ NoGarbage m) (ReorderRel ext) := by
   have S := swapOK ext
   refine { refl := S.refl, trans := S.trans, vars := fun m h => h.1.order,
            roots := fun m h => S.roots m h.1, step := ?_, gc := ?_, sched := ?_, size := ?_ }
   · intro m i h hi
     refine OkOrSched.mono ?_ (swapBody_spec m ext h.1.inv h.1.order h.1.refExact h.1.off i hi)
-    intro r m' hp
-    refine ⟨⟨⟨hp.inv, hp.order, hp.refExact, ?_, ?_⟩, hp.noZero h.2⟩, ?_, hp.exch, hp.sizes⟩
+    intro r m' ⟨hp, hsch⟩
+    refine ⟨⟨⟨hp.inv, hp.order, hp.refExact, ?_, ?_⟩, hp.noZero h.2⟩,
+      ⟨?_, hp.names, hp.exch.nvars, hp.exch.roots, hp.ctx, hp.lastLen, hsch⟩, hp.exch, hp.sizes⟩
     · rw [hp.ctx, hp.lastLen]; exact h.1.off
     · rw [hp.exch.roots]; exact h.1.rootsHeld
     · intro u hu a
@@ -53,21 +54,21 @@ theorem siftEnv2 (ext : Nat → Nat) :
     obtain ⟨m', hrun, hp⟩ := collectGarbage_spec m ext h.inv h.refExact
     obtain ⟨a, b⟩ := gcSub_keeps h hp.inv hp.refExact hp.sub
     exact ⟨m', hrun, ⟨a, hp.noZero⟩, b, hp.sub.vars⟩
-  · intro m s h
+  · intro m s h hs0
     exact ⟨⟨⟨h.1.inv.setSched s, h.1.order, h.1.refExact.congr rfl rfl, h.1.off, h.1.rootsHeld⟩, h.2⟩,
-      fun u _ a => rfl⟩
+      ⟨fun u _ a => rfl, fun _ => rfl, rfl, rfl, rfl, rfl, hs0⟩⟩
   · intro m0 m1 m2 h1 h2 r1 r2 hn hl
     apply len_determined m1 m2 ext h1.1.inv h2.1.inv h1.1.refExact h2.1.refExact h1.2 h2.2 hn
     intro u hu b
     apply den_of_denN h1.1.inv.wf.toWF h2.1.inv.wf.toWF h1.1.order hn hl (u : Int)
       (h1.1.held_mem hu) (h2.1.held_mem hu)
     intro σ
-    rw [r1 u hu σ, r2 u hu σ]
+    rw [r1.held u hu σ, r2.held u hu σ]
 
 /-- **`reorder(bdd)` (sifting) never raises**: with at least two variables, for every schedule -/
 theorem applySifting_never_raises (ext : Nat → Nat) (m : Mgr) (h : ReorderInv ext m)
     (h2 : 2 ≤ m.nvars) :
-    OkOrSched (fun _ m' => (ReorderInv ext m' ∧ NoGarbage m') ∧ HeldSame ext m m') (applySifting m) :=
+    OkOrSched (fun _ m' => (ReorderInv ext m' ∧ NoGarbage m') ∧ ReorderRel ext m m') (applySifting m) :=
   applySifting_total (siftEnv2 ext) m h h2
 
 end DD
